@@ -299,10 +299,9 @@ class Parameter(Accessible):
         """
         self.fixExport()
         if self.constant is not None:
-            constant = self.datatype(self.constant)
-            # The value of the `constant` property should be the
-            # serialised version of the constant, or unset
-            self.constant = self.datatype.export_value(constant)
+            # finish is called on every copy: keep the internal value here and
+            # serialise it in for_export only, else it would be exported repeatedly
+            self.constant = self.datatype(self.constant)
             self.readonly = True
         for propname in 'default', 'value':
             if propname in self.propertyValues:
@@ -324,7 +323,11 @@ class Parameter(Accessible):
         return self.datatype.export_value(self.value)
 
     def for_export(self):
-        return dict(self.exportProperties(), readonly=self.readonly)
+        result = dict(self.exportProperties(), readonly=self.readonly)
+        if self.constant is not None:
+            # the value of the `constant` property is the serialised version of the constant
+            result['constant'] = self.datatype.export_value(self.constant)
+        return result
 
     def getProperties(self):
         """get also properties of datatype"""
